@@ -25,9 +25,6 @@ def M(id, props, *edits):
 M("c01-drop-internal-both", ["C01"],
   (CI, '        data[self._section]["internal"] = bool(self.internal)\n', ''),
   (CI, '        self.internal = bool(data[self._section].get("internal", False))\n', ''))
-M("c01-grandchildren-list-omitted", ["C01"],
-  (CI, '        if variant_ids:\n            dump["variants"] = sorted(variant_ids)',
-       '        if variant_ids and (self.parent is None or self.parent.parent is None):\n            dump["variants"] = sorted(variant_ids)'))
 M("c01-skip-path-category", ["C01"],
   (CI, '    def serialize(self, data):\n        self.validate()\n        paths = data\n        for arch in sorted(self._variant.arches):\n            for name in self._fields:',
        '    def serialize(self, data):\n        self.validate()\n        paths = data\n        for arch in sorted(self._variant.arches):\n            for name in self._fields[:-1]:'))
@@ -62,17 +59,10 @@ M("c14-drop-updates-testing", ["C14"],
   (CM, '    "updates-testing",\n', ''))
 M("c14-split-instead-of-rsplit", ["C14"],
   (CM, 'release_id.rsplit("-", 2)', 'release_id.split("-", 2)'))
-M("c14-type-class-letters-only", ["C14"],
-  (CM, 'RELEASE_TYPE_RE = re.compile(r"^[a-z]+([a-z0-9]*-?[a-z0-9]+)*$")', 'RELEASE_TYPE_RE = re.compile(r"^[a-z]+([a-z]*-?[a-z0-9]+)*$")'))
 M("c14-ga-elision-one-side", ["C14"],
   (CM, '    if type == "ga":\n        result = "%s-%s" % (short, version)', '    if type in ("ga", "fast"):\n        result = "%s-%s" % (short, version)'))
 M("c14-at-split-last", ["C14"],
   (CM, 'release, base_product = release_id.split("@")', 'release, base_product = release_id.split("@")[0], release_id.split("@")[-1][1:] or release_id.split("@")[-1]'))
-M("c14-reorder-types", ["C14"],
-  (CM, '    "updates",\n    "updates-testing",\n', '    "updates-testing",\n    "updates",\n'),
-  (CM, '            if release_id.endswith(type_):', '            if release_id.endswith(type_[-5:]):'))
-M("c14-version-allows-trailing-dot", ["C14"],
-  (CM, r'([0-9]+(\.?[0-9]+)*))$")', r'([0-9]+(\.?[0-9]+)*\.?))$")'))
 M("c14-create-skips-bp-validation", ["C14"],
   (CM, '        result += "@%s" % create_release_id(bp_short, bp_version, bp_type)',
        '        result += "@%s-%s" % (bp_short, bp_version) + ("" if bp_type == "ga" else "-%s" % bp_type)'))
@@ -87,10 +77,36 @@ M("c15-respin-default-1", ["C15"],
   (CI, '    if result["respin"] is None:\n        result["respin"] = 0', '    if result["respin"] is None:\n        result["respin"] = 1'))
 M("c15-bp-suffix-not-lowered", ["C15"],
   (CI, "        return '-%s' % self.type.lower()", "        return '_%s' % self.type"))
-M("c15-date-6-to-8", ["C15"],
-  (CI, r'match = re.search(r"(?P<date>\d{8})', r'match = re.search(r"(?P<date>\d{6,8})'))
 M("c15-decoder-drops-test-long", ["C15"],
   (CI, "    \"test\": ['t', 'test'],", "    \"test\": ['t'],"))
-M("c15-legacy-keeps-doc-type", ["C15"],
-  (CI, '        self.date, self.type, self.respin = get_date_type_respin(self.id)',
-       '        self.date, _type, self.respin = get_date_type_respin(self.id)'))
+
+
+M("c01-children-list-omitted-below-top", ["C01"],
+  (CI, '        if variant_ids:\n            dump["variants"] = sorted(variant_ids)',
+       '        if variant_ids and self.parent is None:\n            dump["variants"] = sorted(variant_ids)'))
+M("c14-type-class-letters-only", ["C14"],
+  (CM, r'RELEASE_TYPE_RE = re.compile(r"^[a-z][a-z0-9]*(-[a-z0-9]+)*\Z")', r'RELEASE_TYPE_RE = re.compile(r"^[a-z][a-z]*(-[a-z0-9]+)*\Z")'))
+M("c14-type-substring-match", ["C14"],
+  (CM, '            if release_id.endswith(type_):', '            if type_ in release_id.split("-", 1)[-1] and release_id.endswith(type_[-2:]):'))
+M("c14-version-allows-trailing-dot", ["C14"],
+  (CM, r'([0-9]+(\.[0-9]+)*))\Z")', r'([0-9]+(\.[0-9]+)*\.?))\Z")'))
+M("c14-short-allows-uppercase-tail", ["C14"],
+  (CM, r'RELEASE_SHORT_RE = re.compile(r"^[a-z][a-z0-9]*(-[a-z0-9]+)*\Z")', r'RELEASE_SHORT_RE = re.compile(r"^[a-z][a-zA-Z0-9]*(-[a-z0-9]+)*\Z")'))
+M("c15-date-not-anchored", ["C15"],
+  (CI, r'(\.(?P<respin>\d+))?$", compose_id)', r'(\.(?P<respin>\d+))?", compose_id)'))
+
+# ---- C19 ------------------------------------------------------------------
+M("c19-nested-quantifier-short", ["C19"],
+  (CM, r'RELEASE_SHORT_RE = re.compile(r"^[a-z][a-z0-9]*(-[a-z0-9]+)*\Z")', r'RELEASE_SHORT_RE = re.compile(r"^[a-z]+([a-z0-9]*-?[a-z0-9]+)*\Z")'))
+M("c19-nested-quantifier-version", ["C19"],
+  (CM, r'([0-9]+(\.[0-9]+)*))\Z")', r'([0-9]+(\.?[0-9]+)*))\Z")'))
+M("c19-treeinfo-version-nested", ["C19"],
+  (TI, r'self._assert_matches_re("version", [r"^\d+(\.\d+)*\Z"])', r'self._assert_matches_re("version", [r"^(\d+\.?)+\Z"])'))
+M("c19-label-word-dash-nested", ["C19"],
+  (CI, r'LABEL_RE_LIST.append(re.compile(r"^%s-\d+\.\d+\Z" % label_name))', r'LABEL_RE_LIST.append(re.compile(r"^(%s-?)+\d+(\.?\d+)+\Z" % label_name))'))
+M("c19-variant-id-alternation", ["C19"],
+  (CI, r'self._assert_matches_re("id", [r"^[a-zA-Z0-9]+\Z"])', r'self._assert_matches_re("id", [r"^([a-zA-Z]|[a-z0-9]|[A-Z0-9])+\Z"])'))
+M("c19-module-uid-nested", ["C19"],
+  (MO, r'(?P<module_name>[^:]+):', r'(?P<module_name>([^:/]+/?)+):'))
+M("c19-implant-md5-nested", ["C19"],
+  (IM, r'self._assert_matches_re("implant_md5", [r"^[a-z0-9]{32}\Z"])', r'self._assert_matches_re("implant_md5", [r"^([a-z]*[0-9]*)*\Z"])'))
